@@ -40,8 +40,9 @@ THOROUGH = QUICK + ["Cancel_data_t.cfg", "Cancel_timer_t.cfg", "Cancel_fd_t.cfg"
                     "Cancel_caw_data_t.cfg", "Cancel_caw_fd_t.cfg", "Cancel_caw_timer_t.cfg",
                     "Cancel_global_t.cfg", "Cancel_data_global_t.cfg", "Cancel_susp_t.cfg",
                     "Cancel_reg_data_t.cfg", "Cancel_reg_fd_t.cfg", "Cancel_reg_timer_t.cfg",
-                    "Cancel_set2_data_q.cfg", "Cancel_set_data_t.cfg", "Cancel_set_fd_t.cfg", "Cancel_set_timer_t.cfg",
-                    "Cancel_set_global_t.cfg", "Cancel_set_susp_t.cfg"]
+                    "Cancel_set_timer_t.cfg", "Cancel_set_fd_t.cfg", "Cancel_set_data_t.cfg", "Cancel_set2_data_t.cfg",
+                    "Cancel_set2_timer_t.cfg", "Cancel_set_susp_t.cfg", "Cancel_set_global_t.cfg",
+                    "Cancel_set_data_live_t.cfg", "Cancel_set_fd_live_t.cfg"]
 PINNED = "Cancel_fd_pinned.cfg"
 # (mutant, base config, judged by)
 MUTANTS = [("callout_before_unreg", "Cancel_fd_q.cfg", "safety"),
@@ -387,6 +388,9 @@ def run(tier, seed):
                      "the kernel is abstracted as: an epoll registration fires only while it exists and is armed",
                      "hooked build serialises traced atomics with their log record (global lock)",
                      "trace validation is at the flag-word level + life-cycle order (see CancelTrace.tla header), not pc-level",
+                     "dispatch_source_set_cancel_handler[_f] after activation: modelled and driven for the CANCEL handler (install / "
+                     "replace / clear, 1-2 calls per source in the models, up to 3 in the driver, calls of one source never overlap); "
+                     "mutation of the event / registration handler after activation and the mandatory (DSF_STRICT) variants are not",
                      "not modelled: set_timer after activation, retargeting, last release without cancel"]
     # the model checking and the real executions run side by side, each into its own verdict; merged here
     vm, vt = Verdict(PROP, tier, seed), Verdict(PROP, tier, seed)
